@@ -9,7 +9,9 @@
 //!   => <hex of the document> <description of the parsed-back message in the same grammar | err>
 use crate::rng::{hex, unhex, Rng};
 use crate::Ctx;
+use rpki::ca::idexchange::{ChildRequest, Handle, ParentResponse, PublisherRequest, RepositoryResponse, ServiceUri};
 use rpki::ca::publication as publ;
+use std::str::FromStr;
 use rpki::rrdp::Hash;
 use rpki::uri;
 
@@ -95,7 +97,66 @@ fn describe(m: publ::Message) -> String {
     }
 }
 
+//------------ RFC 8183 -------------------------------------------------------------------------------
+//
+// op:  idx creq <handle> <tag> <cert> | idx presp <parent> <child> <service_uri> <tag> <cert>
+//      idx preq <handle> <tag> <cert> | idx rresp <handle> <service_uri> <sia_base> <notify> <tag> <cert>
+//   all fields hex (`e` empty); tag and notify may be `~` (absent).  Handles go through the checked
+//   constructor `Handle::from_str`, URIs through `from_slice`, an `http://` service URI through the public
+//   variant `ServiceUri::Http`.   => <hex of the document> <the parsed-back message in the same grammar | err>
+
+fn p_str(s: &str) -> Option<String> { String::from_utf8(unhx(s)?).ok() }
+fn p_handle<T>(s: &str) -> Option<Handle<T>> { Handle::from_str(&p_str(s)?).ok() }
+fn p_suri(s: &str) -> Option<ServiceUri> {
+    let t = p_str(s)?;
+    if t.len() >= 7 && t[..7].eq_ignore_ascii_case("http://") { Some(ServiceUri::Http(t)) }
+    else { uri::Https::from_string(t).ok().map(ServiceUri::Https) }
+}
+fn p_opt<T>(s: &str, f: impl Fn(&str) -> Option<T>) -> Option<Option<T>> { if s == "~" { Some(None) } else { f(s).map(Some) } }
+fn sh_opt(t: Option<String>) -> String { match t { None => "~".into(), Some(s) => hx(s.as_bytes()) } }
+
+fn exec_idx(toks: &[&str]) -> String {
+    fn finish(doc: Vec<u8>, back: Option<String>) -> String { format!("{} {}", hex(&doc), back.unwrap_or_else(|| "err".into())) }
+    (|| -> Option<String> {
+        Some(match toks {
+            ["creq", h, t, c] => {
+                if *t != "~" { return None }      // ChildRequest::new takes no tag
+                let m = ChildRequest::new(publ::Base64::from_content(&unhx(c)?), p_handle(h)?);
+                let mut doc = Vec::new(); m.write_xml(&mut doc).ok()?;
+                let back = ChildRequest::parse(doc.as_slice()).ok().map(|b| format!("creq:{}:{}:{}", hx(b.child_handle().as_str().as_bytes()),
+                    sh_opt(b.tag().cloned()), hx(&b.id_cert().to_bytes())));
+                finish(doc, back)
+            }
+            ["presp", p, ch, u, t, c] => {
+                let m = ParentResponse::new(publ::Base64::from_content(&unhx(c)?), p_handle(p)?, p_handle(ch)?, p_suri(u)?, p_opt(t, p_str)?);
+                let mut doc = Vec::new(); m.write_xml(&mut doc).ok()?;
+                let back = ParentResponse::parse(doc.as_slice()).ok().map(|b| format!("presp:{}:{}:{}:{}:{}", hx(b.parent_handle().as_str().as_bytes()),
+                    hx(b.child_handle().as_str().as_bytes()), hx(b.service_uri().to_string().as_bytes()), sh_opt(b.tag().cloned()), hx(&b.id_cert().to_bytes())));
+                finish(doc, back)
+            }
+            ["preq", h, t, c] => {
+                let m = PublisherRequest::new(publ::Base64::from_content(&unhx(c)?), p_handle(h)?, p_opt(t, p_str)?);
+                let mut doc = Vec::new(); m.write_xml(&mut doc).ok()?;
+                let back = PublisherRequest::parse(doc.as_slice()).ok().map(|b| format!("preq:{}:{}:{}", hx(b.publisher_handle().as_str().as_bytes()),
+                    sh_opt(b.tag().cloned()), hx(&b.id_cert().to_bytes())));
+                finish(doc, back)
+            }
+            ["rresp", h, u, b, n, t, c] => {
+                let m = RepositoryResponse::new(publ::Base64::from_content(&unhx(c)?), p_handle(h)?, p_suri(u)?,
+                    uri::Rsync::from_slice(&unhx(b)?).ok()?, p_opt(n, |x| uri::Https::from_slice(&unhx(x)?).ok())?, p_opt(t, p_str)?);
+                let mut doc = Vec::new(); m.write_xml(&mut doc).ok()?;
+                let back = RepositoryResponse::parse(doc.as_slice()).ok().map(|r| format!("rresp:{}:{}:{}:{}:{}:{}", hx(r.publisher_handle().as_str().as_bytes()),
+                    hx(r.service_uri().to_string().as_bytes()), hx(r.sia_base().as_slice()),
+                    match r.rrdp_notification_uri() { None => "~".into(), Some(x) => hx(x.as_slice()) }, sh_opt(r.tag().cloned()), hx(&r.id_cert().to_bytes())));
+                finish(doc, back)
+            }
+            _ => return None,
+        })
+    })().unwrap_or_else(|| "bad-op".into())
+}
+
 pub fn exec(toks: &[&str]) -> String {
+    if toks.first() == Some(&"idx") { return exec_idx(&toks[1..]) }
     let Some(m) = build(&toks[1..]) else { return "bad-op".into() };
     let mut doc = Vec::new();
     if m.write_xml(&mut doc).is_err() { return "write-err".into() }
@@ -121,9 +182,45 @@ fn tag_of(rng: &mut Rng) -> String {
     }
 }
 
+fn handle_of(rng: &mut Rng) -> String {
+    const CH: &[u8] = b"abcdefghijklmnopqrstuvwxyzABCDEFGHIJKLMNOPQRSTUVWXYZ0123456789-_/";
+    match rng.below(6) {
+        0 => (*rng.pick(CH) as char).to_string(),
+        1 => (0..255).map(|_| *rng.pick(CH) as char).collect(),
+        2 => (*rng.pick(&["-", "_", "/", "a/b/c", "Alice", "0", "CA-1_x/y"])).to_string(),
+        _ => { let n = rng.range(1, 20); (0..n).map(|_| *rng.pick(CH) as char).collect() }
+    }
+}
+
+fn https_of(rng: &mut Rng) -> String {
+    format!("{}://{}/{}{}", if rng.chance(1, 8) { "HTTPS" } else { "https" }, rng.pick(&["h", "localhost:8443", "RRDP.Example.NET", "a&b.example"]),
+        rng.pick(&["", "rrdp/", "a&b/c'd/", "Up/Down/"]), rng.pick(&["", "notification.xml", "X.xml", "svc"]))
+}
+
+fn gen_idx(ctx: &mut Ctx, rng: &mut Rng, n: usize) {
+    for _ in 0..n {
+        let cl = match rng.below(6) { 0 => 1, 1 => 2, 2 => 3, 3 => rng.range(300, 900), _ => rng.range(4, 120) } as usize;
+        let cert = hx(&rng.bytes(cl));
+        let tag = |rng: &mut Rng| match rng.below(6) { 0 | 1 => "~".to_string(), 2 => "e".into(), 3 => hx(b"<>&\"'"), 4 => hx(b" a  b "), _ => hx(format!("t{}", rng.below(1000)).as_bytes()) };
+        let suri = |rng: &mut Rng| if rng.bool() { hx(https_of(rng).as_bytes()) } else {
+            hx(format!("{}://{}/{}", rng.pick(&["http", "HTTP", "Http"]), rng.pick(&["h", "localhost:3000", "RPKI.Example.NET", "a&b.example"]), rng.pick(&["", "rfc6492/Alice", "Pub/&<'"])).as_bytes()) };
+        match rng.below(4) {
+            0 => ctx.case(&format!("idx creq {} ~ {}", hx(handle_of(rng).as_bytes()), cert)),
+            1 => ctx.case(&format!("idx presp {} {} {} {} {}", hx(handle_of(rng).as_bytes()), hx(handle_of(rng).as_bytes()), suri(rng), tag(rng), cert)),
+            2 => ctx.case(&format!("idx preq {} {} {}", hx(handle_of(rng).as_bytes()), tag(rng), cert)),
+            _ => {
+                let base = { let mut u = uri_of(rng); if u.last() != Some(&b'/') { u.push(b'/'); } u };
+                let notify = if rng.chance(1, 3) { "~".to_string() } else { hx(https_of(rng).as_bytes()) };
+                ctx.case(&format!("idx rresp {} {} {} {} {} {}", hx(handle_of(rng).as_bytes()), suri(rng), hx(&base), notify, tag(rng), cert))
+            }
+        }
+    }
+}
+
 pub fn generate_into(ctx: &mut Ctx) {
     let mut rng = Rng::new(Rng::new(ctx.seed ^ 0xC11B).next());
     let n = if ctx.tier_thorough { 4000 } else { 400 };
+    gen_idx(ctx, &mut rng, n);
     ctx.case("pubx lq");
     ctx.case("pubx ok");
     ctx.case("pubx delta -");
